@@ -390,7 +390,22 @@ func c19ListEncoder(c *Ctx) {
 		r.Undecided("C19-K2", key, "-", "the list encoder labelsToBytes or the per-name encoder it calls in its scan was not found")
 		return
 	}
-	ls := findScanLoops(f)
+	// the scan that encodes: a scan loop with a call of the per-name encoder or an append in it; a scan that only adds up
+	// sizes (to pre-size the buffer) has neither and is not part of the encoding
+	var ls []*scanLoop
+	for _, l0 := range findScanLoops(f) {
+		encodes := false
+		for b := range l0.loop {
+			for _, in := range b.Instrs {
+				if cl, ok := in.(*ssa.Call); ok && (cl.Call.StaticCallee() == per || isBuiltinCall(cl.Common(), "append")) {
+					encodes = true
+				}
+			}
+		}
+		if encodes {
+			ls = append(ls, l0)
+		}
+	}
 	if len(ls) != 1 || ls[0].coll != ssa.Value(f.Params[0]) {
 		r.Undecided("C19-K2", key, c.P.pos(f.Pos()), "not one ascending scan of the argument (idiom not recognised)")
 		return
@@ -445,7 +460,15 @@ func c19ListEncoder(c *Ctx) {
 		ok, why = false, "no accumulator that starts empty and grows by the encoding of each name on every iteration"
 	}
 	if ok {
+		gc := newGuardCache(c)
 		for _, rt := range returnsOf(f) {
+			// `if len(names) == 0 { return nil }`: the concatenation over no names
+			if len(rt.Results) == 1 && isEmptyInit(rt.Results[0]) {
+				lo, hi := gc.lenBounds(rt.Block(), func(v ssa.Value) bool { return lenOperand(v) == ssa.Value(f.Params[0]) })
+				if lo == 0 && hi == 0 {
+					continue
+				}
+			}
 			if len(rt.Results) != 1 || rt.Results[0] != ssa.Value(acc) || !(rt.Block() == l.done || l.done.Dominates(rt.Block())) {
 				ok, why = false, "a return yields something other than the concatenation (an alternative encoding on some path)"
 			}
